@@ -79,6 +79,9 @@ pub struct Config {
     /// worker slots may be frozen (never polled: a worker thread stuck in a synchronous handler)
     #[serde(default)]
     pub freeze: bool,
+    /// the re-creation of a failed service stays pending until the simulator opens a gate
+    #[serde(default)]
+    pub gated_restart: bool,
 }
 
 fn yes() -> bool {
@@ -120,6 +123,8 @@ pub enum Action {
     /// stop / resume polling a worker slot (its thread is stuck in a synchronous handler)
     FreezeWorker(usize),
     ThawWorker(usize),
+    /// let pending service re-creations complete
+    OpenRestartGate,
     ReadyFlip(usize, u8),
     /// nested actions inside dispatch window `.0` (the n-th successful send of the run)
     RacePoll(u64, usize),
@@ -373,7 +378,13 @@ impl Sim {
         sf.flag.reset();
         let wk = waker(&sf.flag);
         let mut cx = Context::from_waker(&wk);
-        if f.as_mut().poll(&mut cx).is_ready() {
+        let polled = catch_unwind(AssertUnwindSafe(|| f.as_mut().poll(&mut cx)));
+        let Ok(polled) = polled else {
+            sf.fut = None;
+            self.sh.violate(Violation::new("stop-future-panicked", format!("the future returned by stop() number {i} panicked when polled")));
+            return;
+        };
+        if polled.is_ready() {
             sf.fut = None;
             sf.resolved_ms = Some(now);
             let g = sf.graceful;
@@ -655,6 +666,9 @@ fn enabled_actions(sim: &Sim) -> Vec<(Action, u32)> {
         if cfg.stop && cfg.shutdown_timeout_s < 1000 {
             en.push((Action::Advance(cfg.shutdown_timeout_s * 1000), 1));
         }
+    }
+    if cfg.gated_restart && !sh.restart_gate_open.get() && !sh.restart_gate_wakers.borrow().is_empty() {
+        en.push((Action::OpenRestartGate, 1));
     }
     if cfg.accept_faults && sh.armed_fault.get().is_none() && sh.accept_alive.get() && sim.o.faults_injected < 6 {
         for l in 0..cfg.listeners.len() {
@@ -1132,6 +1146,13 @@ async fn exec_action(sim: &mut Sim, a: Action) {
             sh.armed_fault.set(Some((tok, errno)));
             sim.o.faults_injected += 1;
             sh.ctx(|ctx| ev!(ctx, "arm accept error {} on l{l}", errno_name(errno)));
+        }
+        Action::OpenRestartGate => {
+            sh.restart_gate_open.set(true);
+            for w in sh.restart_gate_wakers.borrow_mut().drain(..) {
+                w.wake();
+            }
+            sh.ctx(|ctx| ev!(ctx, "service re-creations may complete"));
         }
         Action::FreezeWorker(s) | Action::ThawWorker(s) => {
             let freeze = matches!(a, Action::FreezeWorker(_));
